@@ -46,7 +46,8 @@ def strategy(tier):
         # row labels: not data, and not necessarily unique (an un-reset
         # concat) or numeric
         'index': st.sampled_from(['default', 'default', 'default', 'dup',
-                                  'strings', 'reversed', 'dup-first']),
+                                  'strings', 'reversed', 'dup-first',
+                                  'multi']),
         'avoid_known': st.sampled_from([True] * 7 + [False]),
         # a constructed column of 20-odd codes or names in which a kind of
         # character first appears in a value that sorts late
@@ -82,6 +83,10 @@ def set_index(df, kind):
         df.index = pd.Index(['r%d' % (i % 3) for i in range(n)])
     elif kind == 'reversed':
         df.index = pd.RangeIndex(n - 1, -1, -1)
+    elif kind == 'multi':
+        df.index = pd.MultiIndex.from_arrays(
+            [[i // 2 for i in range(n)], [i % 2 for i in range(n)]],
+            names=['g', None])
     return df
 
 
@@ -110,7 +115,8 @@ def valid(case):
             and isinstance(case.get('inc_rex'), bool)
             and isinstance(case.get('repair'), bool)
             and case.get('index', 'default') in (
-                'default', 'dup', 'strings', 'reversed', 'dup-first'))
+                'default', 'dup', 'strings', 'reversed', 'dup-first',
+                'multi'))
 
 
 def quiet(fn, *a, **kw):
@@ -183,6 +189,13 @@ def run(case, ctx):
     if not ok:
         out.violate('verification-never-raises', v.bucket(), v.detail())
         return out
+    # every discovered field and constraint must be among the verdicts
+    unreported = [(f, k) for (f, fc) in d['fields'].items() for k in fc
+                  if k not in dict(v.fields.get(f, {}).items())]
+    if unreported:
+        out.violate('closure', 'not-reported',
+                    'discovered but not reported by verification: %r'
+                    % (unreported[:6],))
     failed = [(f, k) for (f, fr) in v.fields.items()
               for (k, val) in fr.items() if not val]
     if failed or v.failures != 0:
